@@ -224,7 +224,7 @@ Section Urlize.
   Lemma trim_url_clean x : Clean x -> Clean (trim_url trim_limit x).
   Proof.
     intros H. unfold trim_url. destruct trim_limit as [n|]; [|exact H].
-    destruct (Nat.ltb n (length x)); [|exact H]. apply Forall_app. split; [now apply Forall_firstn'|clean_const].
+    destruct (Nat.ltb n (length (unescape5 x))); [|exact H]. apply Forall_app. split; [apply escape_clean|clean_const].
   Qed.
 
   Lemma link_ok rel target m : Clean m ->
